@@ -30,6 +30,7 @@ END_SECS = calendar.timegm((2100, 1, 1, 0, 0, 0))
 TOL = 0.001 + 1e-6
 
 OBLIGATIONS = {
+    "receiver_with_a_past": "add* fired on a timestamp obtained from readUnixTime, from an earlier addSec, from a copy and from a string",
     "jan1_midnight": "1 January 00:00:00.000 probed",
     "dec31_lastms": "31 December 23:59:59.999 probed",
     "feb29": "a 29 February probed",
@@ -132,14 +133,37 @@ def check_unix(a, ctx):
 ADDERS = {"addSec": 1, "addMin": 60, "addHour": 3600, "addDay": 86400}
 
 
-def check_add(f, ev, n, ctx):
+ORIGINS = ["constructed", "read-unix", "added", "copied", "parsed"]
+
+
+def _obtain(f, origin):
+    """The timestamp with the fields f, obtained the way `origin` says (an object's past must not matter)."""
+    if origin == "constructed":
+        return ObsTime(*f)
+    if origin == "read-unix":
+        return ObsTime.readUnixTime(ref_secs(f))
+    if origin == "added":                       # the result of an earlier addSec: one hour back, then one hour forward
+        return ObsTime(*f).addSec(-3600).addSec(3600)
+    if origin == "copied":
+        return ObsTime.readUnixTime(ref_secs(f)).copy()
+    return ObsTime("%02d/%02d/%04d %02d:%02d:%02d" % (f[2], f[1], f[0], f[3], f[4], f[5]))     # default read format, whole seconds
+
+
+def check_add(f, ev, n, ctx, origin="constructed"):
     """t.addX(n) moves the instant by n units (within 1 ms) and stays well-formed."""
     case = {"op": "add", "f": list(f), "ev": ev, "n": n}
+    if origin != "constructed":
+        case["origin"] = origin
+        if origin == "parsed" and f[6] != 0:
+            return False
+        if origin == "added" and ref_secs(f) < 3600:
+            return False
+        ctx.oblige("receiver_with_a_past")
     base = ref_secs(f)
     exp = base + n * ADDERS[ev]
     if exp < 0 or exp >= END_SECS:
         return False
-    st, r = guard(lambda: getattr(ObsTime(*f), ev)(n))
+    st, r = guard(lambda: getattr(_obtain(f, origin), ev)(n))
     if st != "ok":
         ctx.violation("%s/raises" % ev, case, r)
         return True
@@ -212,7 +236,7 @@ def replay(case, ctx):
     elif op == "unix":
         check_unix(case["a"], ctx)
     elif op == "add":
-        check_add(tuple(case["f"]), case["ev"], case["n"], ctx)
+        check_add(tuple(case["f"]), case["ev"], case["n"], ctx, case.get("origin", "constructed"))
     elif op == "cmp":
         check_cmp(tuple(case["f"]), tuple(case["g"]), ctx)
     elif op == "nextday":
@@ -321,6 +345,13 @@ def _run_days(shard, ctx):
                 e = ref_fields(int((ref_secs(f) + n * ADDERS[ev]) // 1))
                 ctx.case(sp or e[1] != mo or e[0] != y)
                 ctx.transition()
+        # the same events on a receiver that was not built from its fields: the result of readUnixTime, of an earlier
+        # addSec, a copy, a parsed string (one origin per day in turn; every origin on the special days)
+        for origin in (ORIGINS[1:] if sp else [ORIGINS[1 + (d + mo) % 4]]):
+            for ev, n in DAY_EVENTS:
+                if check_add(f, ev, n, ctx, origin):
+                    ctx.case(True)
+                    ctx.transition()
         # events fired from the last millisecond of the day as well
         g = (y, mo, d, 23, 59, 59, 999)
         for ev, n in (("addSec", 0.001), ("addSec", 1), ("addSec", -86399.999), ("addMin", 1), ("addHour", 1)):
